@@ -61,7 +61,7 @@ Snap check_tree(AdaptiveHuffmanTree& t, const RefHuff& r, const std::string& ctx
 
 void expect_refusal(AdaptiveHuffmanTree& t, const RefHuff& r, const std::string& ctx, Stats& st) {
 	Snap before = check_tree(t, r, ctx);
-	for (unsigned bad : {unsigned(r.n), unsigned(r.n + 1), 65535u, unsigned(2 * r.n - 1)}) {
+	for (unsigned bad : {unsigned(r.n), unsigned(r.n + 1), 65535u, unsigned(2 * r.n - 1), 65534u, unsigned(65536 - r.n), unsigned(65536 - (2 * r.n - 1)), unsigned(65536 - 2 * r.n), 32768u, unsigned(32768 + r.n)}) {
 		if (bad > 65535) continue;
 		if (bad >= unsigned(r.n)) {
 			Out o = guarded([&] { t.UpdateCodeCount(uint16_t(bad)); });
@@ -167,6 +167,31 @@ void capacity_run(unsigned n, unsigned pattern, Stats& st) {
 	st.cls("capacity_run");
 	st.nt(hmix(n, pattern) ^ 0xCA);
 }
+// histories that make the tree as deep as the counters allow: k 'chain' symbols receive Fibonacci multiples of the weight R of
+// all remaining symbols (ascending), which stacks them one per level above the rest; codes of 17..22 bits arise within capacity
+void deep_run(unsigned n, unsigned order, Stats& st) {
+	AdaptiveHuffmanTree tree{uint16_t(n)}; RefHuff ref{int(n)};
+	unsigned k = std::min(n - 2, 22u); uint64_t R = n - k;
+	std::string ctx = "[deep run n=" + std::to_string(n) + " order=" + std::to_string(order) + "]";
+	std::vector<uint64_t> w;
+	for (; k >= 1; --k) {   // largest chain length whose weights fit the counters; R = weight of all other symbols
+		R = n - k; w.clear();
+	// w[i] = 1 + (weight of everything lighter than w[i-1]): strictly more than the subtree it has to sit above, so no tie can rebalance the chain
+		uint64_t total = n, below = R;   // below = R + w[0] + ... + w[i-2]
+		for (unsigned i = 0; i < k; ++i) { uint64_t wi = below + 1 + (i == 1 ? 1 : 0); if (total + wi - 1 > 65535 - 8) break; w.push_back(wi); total += wi - 1; if (i >= 1) below += w[i - 1]; }
+		if (w.size() == k) break;
+	}
+	uint64_t done = 0; unsigned maxLen = 0;
+	auto upd = [&](unsigned sym) { tree.UpdateCodeCount(uint16_t(sym)); ref.update(int(sym)); if (++done % 2731 == 0) check_tree(tree, ref, ctx + " after update " + std::to_string(done)); };
+	if (order == 0) { for (size_t i = 0; i < w.size(); ++i) for (uint64_t c = 1; c < w[i]; ++c) upd(unsigned(n - 1 - i)); }          // chain symbol by chain symbol
+	else { bool more = true; for (uint64_t c = 1; more; ++c) { more = false; for (size_t i = 0; i < w.size(); ++i) if (c < w[i]) { upd(unsigned(n - 1 - i)); more = true; } } }   // interleaved, other symbols
+	Snap s = check_tree(tree, ref, ctx + " final");
+	for (auto& c : s.codes) maxLen = std::max(maxLen, c.second);
+	st.cls("deep_run:max_code_bits:" + std::to_string(maxLen));
+	// every symbol once more, checking after each (the encoder for untouched deep leaves)
+	for (unsigned sym = 0; sym < n && !ref.at_capacity(); sym += std::max(1u, n / 16)) { upd(sym); check_tree(tree, ref, ctx + " tail symbol " + std::to_string(sym)); }
+	st.nt(hmix(n, order) ^ 0xDE);
+}
 } // namespace
 
 void run_sweep(Stats& st) {
@@ -188,6 +213,7 @@ void run_sweep(Stats& st) {
 	// to and across capacity
 	for (unsigned n : {2u, 3u, 314u}) for (unsigned pattern = 0; pattern < 3; ++pattern) { if (!sw("capacity", n, pattern)) continue; capacity_run(n, pattern, st); }
 	if (g_thorough) for (unsigned n : {4u, 5u, 17u, 100u, 313u}) { if (!sw("capacity", n, 2)) continue; capacity_run(n, 2, st); }
+	for (unsigned n : {24u, 40u, 100u, 314u}) for (unsigned order = 0; order < 2; ++order) { if (!sw("deep", n, order)) continue; deep_run(n, order, st); }
 	st.exhaustive = true;
 }
 
